@@ -388,7 +388,7 @@ func ruleP03Result(p *Prog, r *Report) {
 	// Original() = Text + LineEnding
 	for _, ret := range returnsOf(orig) {
 		var leaves []ssa.Value
-		concatLeaves(ret.Results[0], &leaves, 0)
+		concatLeaves(retResult(ret, 0), &leaves, 0)
 		var names []string
 		for _, l := range leaves {
 			if _, f := fieldLoad(l); f != "" {
@@ -462,7 +462,7 @@ func ruleP03Result(p *Prog, r *Report) {
 	}
 	// flatten: result = append(result, b.Lines()...) for every block
 	for _, ret := range returnsOf(flat) {
-		apps, leaves := accWeb(ret.Results[0])
+		apps, leaves := accWeb(retResult(ret, 0))
 		ok := len(apps) == 1
 		for _, l := range leaves {
 			if !isNilConst(l) {
@@ -594,7 +594,7 @@ func ruleP08Cursor(p *Prog, r *Report) {
 	rets := returnsOf(pb)
 	okCount := len(rets) > 0
 	for _, ret := range rets {
-		phis, ins := phiCycle(ret.Results[1])
+		phis, ins := phiCycle(retResult(ret, 1))
 		if len(phis) == 0 {
 			okCount = false
 			continue
@@ -757,7 +757,7 @@ func ruleP08Split(p *Prog, r *Report) {
 	text := f.Params[0]
 	for i, ret := range returnsOf(f) {
 		key := fmt.Sprintf("return#%d", i)
-		a, b := strip(ret.Results[0]), strip(ret.Results[1])
+		a, b := strip(retResult(ret, 0)), strip(retResult(ret, 1))
 		if a == ssa.Value(text) {
 			s, isS := constString(b)
 			r.check(isS && s == "", rule, key, p.instrPos(ret), "no known ending: (text, \"\")", "without a line ending the text is not returned whole with an empty ending")
